@@ -23,11 +23,11 @@ PY = '/venv/bin/python' if os.path.exists('/venv/bin/python') else sys.executabl
 
 TIERS = {
     'C16': {
-        'quick': {'subs': {'clean': 320, 'faulty': 160}, 'selftest': 16, 'timeout': 90},
+        'quick': {'subs': {'clean': 320, 'faulty': 160}, 'selftest': 24, 'timeout': 120},
         'thorough': {'subs': {'clean': 12000, 'faulty': 6000}, 'selftest': 64, 'timeout': 180},
     },
     'C10': {
-        'quick': {'subs': {'clean': 320, 'faulty': 160}, 'selftest': 16, 'timeout': 90},
+        'quick': {'subs': {'clean': 320, 'faulty': 160}, 'selftest': 24, 'timeout': 120},
         'thorough': {'subs': {'clean': 10000, 'faulty': 5000}, 'selftest': 64, 'timeout': 180},
     },
     'C13': {
